@@ -7,7 +7,7 @@ def cmd_unit(args):
     ext = None
     text, meta = vunit.generate(unit)
     if meta["header"].get("externs", "none") != "none":
-        ext, err = vunit.build_rlibs()
+        ext, err = vunit.build_rlibs(features=meta["header"].get("features", ""))
         if ext is None:
             print("build failed:\n" + err)
             return 2
